@@ -5,10 +5,13 @@
      proj ich ivel e   := (channel unless ich, type, tick, pitch, duration, velocity unless ivel, numerator,
                            denominator, key) of an interleaved entry, attributes irrelevant for the type zeroed
      differ ich ivel x y : bool := the two entries differ in tick / type / channel (unless ignored) / pitch / duration /
-                           velocity (unless ignored) / signature value *)
+                           velocity (unless ignored) / signature value
+     key_determines (fun m => m) a := no two different messages of a share (time, channel, type, pitch)
+                           (Proofs/C15_proofs.v) *)
 From Coq Require Import ZArith List Bool.
 From Model Require Import Base Seq Pairing.
-From Proofs Require Import C17_proofs.
+From Coq Require Import Permutation.
+From Proofs Require Import C17_proofs C15_proofs C17_perm.
 Import ListNotations.
 Open Scope Z_scope.
 
@@ -123,3 +126,18 @@ Theorem C17_same_sorted : forall (a a' b : list msg) (ich its iks ivel : bool),
   sort_abs a = sort_abs a' -> equals a b ich its iks ivel = equals a' b ich its iks ivel.
 Proof. exact C17_proofs.C17_same_sorted. Qed.
 Print Assumptions C17_same_sorted.
+
+(* any re-ordering of the stored messages, provided no two DIFFERENT messages share the sort key
+   (time, channel, type, pitch): then sorting gives the same list whatever the insertion order *)
+Theorem C17_perm_invariant : forall (a a' b : list msg) (ich its iks ivel : bool),
+  Permutation a a' -> key_determines (fun m => m) a = true ->
+  equals a b ich its iks ivel = equals a' b ich its iks ivel.
+Proof. exact C17_perm.C17_perm_invariant. Qed.
+Print Assumptions C17_perm_invariant.
+
+(* REFUTED without that hypothesis: two note-ons with the same tick, channel and pitch and different velocities are
+   kept in insertion order by the stable sort, and the comparison sees the velocities in a different order *)
+Theorem C17_insertion_order_refuted : exists a a' : list msg,
+  Permutation a a' /\ equals a a false false false false = Ok true /\ equals a' a false false false false = Ok false.
+Proof. exists C17_perm.ex_dup, C17_perm.ex_dup'. exact C17_perm.C17_insertion_order_witness. Qed.
+Print Assumptions C17_insertion_order_refuted.
